@@ -70,7 +70,9 @@ fn run_input(
                     items.into_iter().collect()
                 }).unwrap_or_default();
                 let is_ca_cert = only.ends_with(".cer") && own.is_empty();
-                let now = served(&played, 0);
+              for r in 0..played.obs.len() {
+                if !played.obs[r].out.ok() { continue }
+                let now = served(&played, r);
                 if !is_ca_cert {
                     let want: BTreeSet<String> = base_served.difference(&own).cloned().collect();
                     if now != want {
@@ -79,7 +81,7 @@ fn run_input(
                         ctx.oracle_fail(
                             "sibling-affected",
                             &format!(
-                                "fault {} must remove exactly the payload of {ca}/{only}; additionally \
+                                "run {r}: fault {} must remove exactly the payload of {ca}/{only}; additionally \
                                  lost {lost:?}, unexpectedly served {extra:?}", input["faults"]
                             ),
                             input, obs_json(&played)
@@ -112,6 +114,7 @@ fn run_input(
                     }
                     else { ctx.count("differential:only-subtree-removed"); }
                 }
+              }
             }
         }
     }
